@@ -320,15 +320,22 @@ def run(ctx):
             def via_lib(lib=lib, funs=funs, fc=fc):
                 F = lib(fc)
                 for f in funs:
-                    if len(F) > 3000 or F.number_of_variables() > 400 or sum(len(c) for c in F) > 12000:
-                        raise TooBig()
+                    if len(F) > 3000 or F.number_of_variables() > 400 or sum(len(c) for c in F) > 12000 or max([len(c) for c in F] + [0]) > 10:
+                        raise TooBig()          # a substitution costs about 2^width per clause
                     F = f(F)
                 if len(F) > 60000:
                     raise TooBig()
                 return F
             if 'save' in full:
-                a = outcome(via_cli)      # the command line writes the file the library call reads
+                # the command line writes the file the library call reads.  It runs twice under one seed: first without the
+                # chain (cheap; it stores the graph), then - if the library side says the chain is affordable - in full
+                sd = str(rng.randint(0, 10 ** 6))
+                head = full[:full.index('-T')] if '-T' in full else full
+                cli_f = cnfgen_cli if tool == 'cnfgen' else pbgen_cli
+                a = outcome(lambda: cli_f([tool, '-S', sd] + head, mode='formula'))
                 b = outcome(via_lib)
+                if not (b[0] == 'exc' and b[1] == 'TooBig') and head != full:
+                    a = outcome(lambda: cli_f([tool, '-S', sd] + full, mode='formula'))
             else:
                 b = outcome(via_lib)
                 if b[0] == 'exc' and b[1] == 'TooBig':
